@@ -46,6 +46,8 @@ KERNELS_OF = {
     "C10": ["reserve", "reserve_exact", "shrink_to_fit", "shrink_to", "heap_expand", "expand_exact_default"],
     "C11": ["stack_build", "stackn_build", "stackn_size", "reserve_one", "expand_one"],
     "C14": ["iter_len"],
+    "C06": ["pop_new", "remove_new", "swap_remove_new", "drain_new", "splice_new"],
+    "C07": ["pop_new", "remove_new", "swap_remove_new", "drain_new", "splice_new"],
 }
 
 def regenerate_kernels():
